@@ -165,7 +165,7 @@ def simulate_and_compare(top, ftop, design, seq):
     for ip, n in names:
       obj = t_
       if ip:
-        for part in ip.split("."): obj = getattr(obj, part)
+        obj = rtl_sim.sig_of(obj, ip)
       out[(ip + "." if ip else "") + n] = int(rtl_sim.sig_of(obj, n).to_bits())
     return out
   for t, cyc in enumerate(seq):
@@ -224,7 +224,7 @@ def judge(case, stats=None):
     for step, (path, newc, with_obj, check) in enumerate(case["history"]):
       stage = f"replace{step}"
       obj = top
-      for iname in path: obj = getattr(obj, iname)
+      for iname in path: obj = rtl_sim.sig_of(obj, iname)
       removed = removed_objects(obj)
       try:
         if with_obj: top.replace_component_with_obj(obj, mod_classes[newc](), check=check)
@@ -291,7 +291,8 @@ def _load_all(design, extra_classes):
     visit(cn)
   if "Top" not in seen: visit("Top")
   cls_src = [r.cls(cn, design["classes"][cn], tag) for cn in names]
-  src = "from pymtl3 import *\n\n" + "\n".join(r.struct_src) + "\n" + "\n".join(cls_src)
+  ifc_src = r.ifc_source(tag)
+  src = "from pymtl3 import *\n\n" + "\n".join(r.struct_src) + "\n" + "\n".join(ifc_src) + "\n" + "\n".join(cls_src)
   modname = f"vfc15_{os.getpid()}_{tag}_{hashlib.sha1(src.encode()).hexdigest()[:8]}"
   path = os.path.join(os.getcwd(), modname + ".py")
   with open(path, "w") as f: f.write(src)
@@ -316,7 +317,7 @@ rtl_sim_uid = _it.count()
 
 @st.composite
 def cases(draw):
-  design = draw(rtl_gen.designs(min_depth=draw(st.sampled_from([1, 2, 2])), max_depth=2, child_bias=1, max_steps=4, uu=True))
+  design = draw(rtl_gen.designs(min_depth=draw(st.sampled_from([1, 2, 2])), max_depth=2, child_bias=1, max_steps=4, uu=True, ifcs=draw(st.booleans())))
   sl = slots(design)
   if not sl:
     # force one child
@@ -334,12 +335,14 @@ def cases(draw):
     if history and draw(st.integers(0, 2)) == 0:
       hp = history[draw(st.integers(0, len(history) - 1))][0]
       if any(p == hp for p, _ in sl): path = hp; ccn = class_at(cur, path)
-    ports = cur["classes"][ccn]["ports"] if ccn in cur["classes"] else family[ccn]["ports"]
+    oldc = cur["classes"][ccn] if ccn in cur["classes"] else family[ccn]
+    ports = oldc["ports"]
     pool = {k: v for k, v in design["classes"].items() if k != "Top" and not v["children"] and k != ccn}
     newc = f"R{i}"
     opts = dict(rtl_gen.DEFAULT_OPTS); opts.update(max_steps=3, uu=True)
     family[newc] = rtl_gen.build_variant(draw, newc, copy.deepcopy(ports), opts, pool, depth=1 if pool else 0,
                                          rdwr=True, once=draw(st.integers(0, 3)) == 0)
+    family[newc]["ifc_insts"] = copy.deepcopy(oldc.get("ifc_insts", []))     # same interface bundles, same port list
     cur = copy.deepcopy(cur); cur["classes"][newc] = family[newc]
     history.append((path, newc, draw(st.booleans()), draw(st.booleans())))
     cur = specialise(cur, path, newc)
@@ -369,6 +372,7 @@ def run_shard(ctx):
     if ctx.out_of_time(): return
     if not case["history"]: return
     ctx.count()
+    for f_ in rtl_gen.features(case["design"]): ctx.label(f_)
     stats = {}
     v = judge(case, stats)
     ctx.label(f"history_len_{len(case['history'])}")
